@@ -542,8 +542,9 @@ func c15Field(got, want c15Out) (string, string, string) {
 
 func c15Child(ctx *runCtx, spec string) {
 	var replicas int
-	fmt.Sscanf(spec, "R=%d", &replicas)
-	c, err := cluster.Start(cluster.Config{Replicas: replicas, Partitions: 7, TableSize: 1 << 20}, 3)
+	var parts, ts uint64 = 7, 1 << 20
+	fmt.Sscanf(spec, "R=%d P=%d ts=%d", &replicas, &parts, &ts)
+	c, err := cluster.Start(cluster.Config{Replicas: replicas, Partitions: parts, TableSize: ts}, 3)
 	if err != nil {
 		ctx.rep.Inconclusive("cluster start: " + err.Error())
 		return
@@ -579,7 +580,7 @@ func c15Child(ctx *runCtx, spec string) {
 					ctx.rep.Inconclusive(fmt.Sprintf("%s via %s: %v", j.c.ID(), j.kind, err))
 					continue
 				}
-				ctx.rep.Distinct(fmt.Sprintf("R=%d|%s|%s", replicas, j.c.ID(), j.kind))
+				ctx.rep.Distinct(fmt.Sprintf("R=%d|P=%d|ts=%d|%s|%s", replicas, parts, ts, j.c.ID(), j.kind))
 				omu.Lock()
 				if outs[j.c.ID()] == nil {
 					outs[j.c.ID()] = map[string]c15Out{}
@@ -652,7 +653,20 @@ func c15Run(ctx *runCtx) int {
 	for _, r := range rs {
 		batches = append(batches, batch{Spec: fmt.Sprintf("R=%d", r), Timeout: 5 * time.Minute})
 	}
-	runBatches(ctx, batches, 2, func(b batch, res batchResult, tail string) {
+	if ctx.tier == "thorough" {
+		// the same grid on other cluster shapes: ReplicaCount 3, many partitions, small tables
+		for _, r := range []int{1, 2, 3} {
+			for _, p := range []uint64{7, 31, 271} {
+				for _, ts := range []uint64{1 << 20, 8 << 10} {
+					if r <= 2 && p == 7 && ts == 1<<20 {
+						continue
+					}
+					batches = append(batches, batch{Spec: fmt.Sprintf("R=%d P=%d ts=%d", r, p, ts), Timeout: 5 * time.Minute})
+				}
+			}
+		}
+	}
+	runBatches(ctx, batches, 4, func(b batch, res batchResult, tail string) {
 		ctx.rep.Violate("c15|member-crashed|"+b.Spec, fmt.Sprintf("child %s died (exit %d timeout=%v): %s", b.Spec, res.ExitCode, res.TimedOut, lastLines(tail, 15)), map[string]interface{}{"batch": b.Spec, "log": res.LogPath})
 	})
 	return ctx.rep.Finish(200)
